@@ -256,6 +256,7 @@ InstC14(h) ==
   \cup {Inst("CharStats", r, NoArg), Inst("UniqueCharacters", r, NoArg), Inst("NbVariableSites", r, NoArg), Inst("InformativeSites", r, NoArg),
         Inst("AvgAllelesPerSite", r, NoArg), Inst("CountProfile", r, NoArg), Inst("CountDifferences", r, NoArg)}
   \cup {Inst("CharStatsSite", r, [site |-> s]) : s \in sites}
+  \cup {Inst("ProfileOnly", r, [c |-> ch]) : ch \in {65, 97, 81, 45}}
   \cup {Inst("SiteConservation", r, [site |-> s]) : s \in sites \cup (IF W <= 36 THEN 0..(W - 1) ELSE {})}
   \cup {Inst("AlphabetInfo", r, [chars |-> <<65, 97, 67, 81, 113, 78, 45, 88, 42, 85>>])}
   \cup {Inst("CharStatsSeq", r, [idx |-> s]) : s \in {-1, 0, Len(o.rows) - 1, Len(o.rows)}}
